@@ -6,8 +6,8 @@ ids=${*:-C01 C02 C03 C04 C05 C06 C07 C08 C09 C10 C11 C12 C13 C14 C15 C16 C17 C18
 cd "$(dirname "$0")/.." || exit 2
 for p in $ids; do
   start=$(date +%s)
-  ./check $p $tier > /tmp/runall-$p.log 2>&1
+  ./check $p $tier > /tmp/runall-$tier-$p.log 2>&1
   code=$?
   end=$(date +%s)
-  echo "$p exit=$code $((end-start))s $(grep -c '^VIOLATION' /tmp/runall-$p.log) violations $(grep -c '^KNOWN-FINDING' /tmp/runall-$p.log) known"
+  echo "$p exit=$code $((end-start))s $(grep -c "^VIOLATION" /tmp/runall-$tier-$p.log) violations $(grep -c "^KNOWN-FINDING" /tmp/runall-$tier-$p.log) known"
 done
